@@ -177,6 +177,13 @@ class World:
             else:
                 k2, dt, dflt = self.leaf_dt()
                 ns[name] = C.Parameter('not inherited', dt, inherit=False, default=dflt)
+        # module properties overridden by bare values (possibly again by a subclass of a class that already did so)
+        if rng.random() < 0.4:
+            ns['group'] = f'grp_{label}_{self.uid}'
+            kinds.append('bare-module-property')
+        if rng.random() < 0.15:
+            ns['visibility'] = rng.choice(['expert', 'advanced', 'user'])
+            kinds.append('bare-module-property')
         if hascmd and rng.random() < 0.4:
             kinds.append('method-over-command')
 
